@@ -11,19 +11,6 @@ open Rl4co.Spec.Fjsp (isReal opOf Sched ValidSchedule)
 
 /-! ### C07: the final state of a finished episode is a valid schedule -/
 
-/-- in a finished state every operation of every job is scheduled -/
-theorem all_sched_of_done {i : Inst} {s : State} (hinv : Inv i s) (hd : s.done = true) :
-    ∀ j, j < i.J → ∀ o, i.startOp j ≤ o → o ≤ i.endOp j → s.sched o = true := by
-  intro j hj o h1 h2
-  have hall : ∀ j, j < i.J → s.jobDone j = true := by
-    have := hinv.doneIff; rw [hd] at this
-    exact allUpTo_iff.mp this.symm
-  have hjd := hinv.jdone j hj (hall j hj)
-  apply (hinv.schedIff j hj o h1 h2).mpr
-  by_cases ho : o = s.nextOp j
-  · exact Or.inr ⟨ho, Or.inr (hall j hj)⟩
-  · left; rw [hjd.1]; rw [hjd.1] at ho; omega
-
 theorem valid_of_inv_done {i : Inst} (hwf : WF i) {s : State} (hinv : Inv i s) (hd : s.done = true) :
     ValidSchedule i (schedOf s) (Spec.Fjsp.makespan i (schedOf s)) := by
   have hall := all_sched_of_done hinv hd
